@@ -65,6 +65,7 @@ var c06Sites = []struct {
 	{"key", "key", false, "for k, v in o%d { log(k, v) }"},
 	{"syncmap-string", "string", true, "string(sm%d)"},
 	{"syncmap-equal", "equal", true, "(sm%[1]d == sm%[1]db)"},
+	{"json-marshal-cycle", "-", true, "len(import(\"json\").Marshal(cy%d))"}, // a cyclic value handed to a Go encoder: an error, never a runaway recursion
 	{"vm-rem-zero", "-", true, "(7 %% (op(%d) * 0))"}, // a Go panic raised by a VM operator (integer remainder by zero)
 }
 
@@ -78,7 +79,7 @@ func c06Script(probes []c06Probe) string {
 		if site.expr {
 			stmt = "log(" + text + ")"
 		}
-		fmt.Fprintf(&sb, "o%[1]d := obj(%[1]d)\nsm%[1]d := syncmap(%[1]d)\nsm%[1]db := syncmap(%[1]d)\n", k)
+		fmt.Fprintf(&sb, "o%[1]d := obj(%[1]d)\nsm%[1]d := syncmap(%[1]d)\nsm%[1]db := syncmap(%[1]d)\ncy%[1]d := {a: {}}\ncy%[1]d.b = cy%[1]d\n", k)
 		body := ""
 		switch p.ctx {
 		case c06CtxPlain:
@@ -126,7 +127,19 @@ func c06Script(probes []c06Probe) string {
 			// the value stack is exhausted (several slots per call) before the frame limit, under an active handler
 			body = fmt.Sprintf("\tvar v%[1]d\n\tv%[1]d = func(n, a, b, c) { return 1 + v%[1]d(n + 1, a, b, c) }\n\ttry {\n\t\tlog(\"r\", v%[1]d(0, 1, 2, 3))\n\t} catch {\n\t\tlog(\"vo%[1]d\")\n\t}\n\t%[2]s\n", k, stmt)
 		case c06CtxStringsMap:
-			body = fmt.Sprintf("\tlog(import(\"strings\").Map(func(c) {\n\t\t%s\n\t\treturn c\n\t}, \"ab\"))\n", stmt)
+			// any of the stdlib functions that call a script function back from Go
+			switch p.depth % 5 {
+			case 0:
+				body = fmt.Sprintf("\tlog(import(\"strings\").Map(func(c) {\n\t\t%s\n\t\treturn c\n\t}, \"ab\"))\n", stmt)
+			case 1:
+				body = fmt.Sprintf("\tlog(import(\"strings\").TrimFunc(\"ab\", func(c) {\n\t\t%s\n\t\treturn false\n\t}))\n", stmt)
+			case 2:
+				body = fmt.Sprintf("\tlog(import(\"strings\").IndexFunc(\"ab\", func(c) {\n\t\t%s\n\t\treturn false\n\t}))\n", stmt)
+			case 3:
+				body = fmt.Sprintf("\tlog(import(\"strings\").FieldsFunc(\"ab\", func(c) {\n\t\t%s\n\t\treturn false\n\t}))\n", stmt)
+			default:
+				body = fmt.Sprintf("\tlog(import(\"strings\").TrimLeftFunc(\"ab\", func(c) {\n\t\t%s\n\t\treturn true\n\t}))\n", stmt)
+			}
 		}
 		fmt.Fprintf(&sb, "try {\n\tlog(\"b%[1]d\")\n%[2]s\tlog(\"a%[1]d\")\n} catch e%[1]d {\n\tlog(\"c%[1]d\", isError(e%[1]d))\n} finally {\n\tlog(\"f%[1]d\")\n}\n", k, body)
 	}
@@ -166,6 +179,8 @@ func c06Run(rc *sim.RunCtx) {
 			p.depth = 1990 + t.Draw(70)
 		case c06CtxWideCalls:
 			p.depth = 1 + t.Draw(8)
+		case c06CtxStringsMap:
+			p.depth = t.Draw(5)
 		}
 		// fault placement: at most 2 faults per run, mostly panics
 		if nFaults < 2 && t.Bool(3, 4) {
@@ -430,8 +445,8 @@ func init() {
 	sim.Register(&sim.Engine{
 		ID:    "C06",
 		Level: "exploration",
-		Rule: "each run is a script of 1–5 probes `try { log(bK); <context>(<site>); log(aK) } catch e { log(cK, isError(e)) } finally { log(fK) }`; site ∈ {host function, host object BinaryOp/IndexGet/IndexSet/Call/CallName/String/Equal/IsFalsy/Iterate/Next/Key/Value, VM remainder by zero}; " +
-			"context ∈ {plain, callee at depth 1–300, child VM, child of child, finally with pending return, catch, frame array at 1000–1029, value stack at 1990–2039 (wide literal), 240-argument calls nested 1–8, strings.Map callback, unbounded recursion whose frames catch the frame overflow, a try statement inside the function that runs on the child VM, value-stack exhaustion by recursion under an active handler}; ≤2 sites per run panic (string, error, runtime.Error, struct, typed-nil error pointer payload) or return an error. " +
+		Rule: "each run is a script of 1–5 probes `try { log(bK); <context>(<site>); log(aK) } catch e { log(cK, isError(e)) } finally { log(fK) }`; site ∈ {host function, host object BinaryOp/IndexGet/IndexSet/Call/CallName/String/Equal/IsFalsy/Iterate/Next/Key/Value, VM remainder by zero, json.Marshal of a cyclic value}; " +
+			"context ∈ {plain, callee at depth 1–300, child VM, child of child, finally with pending return, catch, frame array at 1000–1029, value stack at 1990–2039 (wide literal), 240-argument calls nested 1–8, callbacks of strings.Map/TrimFunc/IndexFunc/FieldsFunc/TrimLeftFunc, unbounded recursion whose frames catch the frame overflow, a try statement inside the function that runs on the child VM, value-stack exhaustion by recursion under an active handler}; ≤2 sites per run panic (string, error, runtime.Error, struct, typed-nil error pointer payload) or return an error. " +
 			"Oracles: recover() around Run sees nothing; a run that returns a value entered each struck probe's catch and finally exactly once and skipped the statement after the site, and equals the twin run in which the host returns the same text as an error; after Clear the same VM runs the fault-free script and a fixed script like a new VM. " +
 			"Non-trivial = a fault fired (or a VM-internal panic site exists); distinct = distinct (context/site vector, fault table).",
 		Assumptions: []string{"a panic may legitimately end the run with an error instead of reaching a handler: only value-returning runs are compared", "memory-exhausting inputs are not generated"},
